@@ -69,6 +69,8 @@ type recorder struct {
 	stmtRet  []stmtRet
 	panicked string
 	tDepth   int
+	// reentered: ordinals of the statement steps the innermost party requested through ParseStatement()
+	reentered []int
 	// imbalance: first parse step that returned with a different context than it was entered with
 	imbalance string
 }
@@ -115,6 +117,9 @@ type install struct {
 	// stmtReenter (C16 only): a statement party may parse its step through the public ParseStatement()
 	// (a plugin that parses a body itself) instead of calling next()
 	stmtReenter bool
+	// stmtChain (C04 only): the innermost statement party may parse its step through the public ParseStatement();
+	// that is a parse step like any other: the whole chain must run for it, once, in order
+	stmtChain bool
 	// bracket (C16 only): a statement party may wrap its step in a context value of its own
 	// (PushContext(7) ... PopContext()), as a plugin that introduces a new kind of scope does
 	bracket bool
@@ -166,6 +171,7 @@ func drawInstall(ch *kernel.Chooser, forC16 bool) install {
 	in.specific = ch.Bool(1, 3)
 	in.bailout = forC16 && ch.Bool(1, 6)
 	in.stmtReenter = forC16 && ch.Bool(1, 4)
+	in.stmtChain = !forC16 && ch.Bool(1, 5)
 	in.bracket = forC16 && ch.Bool(1, 5)
 	in.builds = 1 + ch.Weighted(5, 3, 2)
 	in.lateAdds = make([]byte, in.builds)
@@ -428,7 +434,13 @@ func (x *installation) add(k byte, via bool) {
 				}
 				r.add('S', idx, 'n', ord, false)
 				var s ast.Statement
-				if in.stmtReenter && !x.inStmtReenter && ch.Bool(1, 6) {
+				if in.stmtChain && idx == x.si-1 && !x.inStmtReenter && ch.Bool(1, 5) {
+					x.inStmtReenter = true
+					st.Inc("probe.statement_step_requested_through_public_ParseStatement")
+					r.reentered = append(r.reentered, ord)
+					s = p.ParseStatement()
+					x.inStmtReenter = false
+				} else if in.stmtReenter && !x.inStmtReenter && ch.Bool(1, 6) {
 					// the whole chain runs again, nested, for this step; this party passes through the second time
 					x.inStmtReenter = true
 					st.Inc("probe.statement_parsed_through_public_ParseStatement")
@@ -861,11 +873,6 @@ func (e *Engine) Run(prop string, ch *kernel.Chooser, st *kernel.Stats) kernel.R
 			}
 		}
 	}
-	if okTruth {
-		if o := xutil.Parse(xutil.PlainBuilder(xutil.Mode{}), p.Text); o.Panic != nil || o.Err != nil {
-			okTruth = false
-		}
-	}
 	if !okTruth {
 		st.Inc("discarded.ground_truth_invalid")
 		return res
@@ -873,6 +880,12 @@ func (e *Engine) Run(prop string, ch *kernel.Chooser, st *kernel.Stats) kernel.R
 	// choose the input: valid, or one injected fault
 	text := p.Text
 	valid := true
+	if o := xutil.Parse(xutil.PlainBuilder(xutil.Mode{}), p.Text); o.Panic != nil || o.Err != nil {
+		// xjs rejects a program that is valid by construction (that it should not is another property's business):
+		// the ground-truth oracles are off for it, everything that compares xjs with itself stays on
+		valid = false
+		st.Inc("generated_program_rejected_by_xjs_kept_without_ground_truth")
+	}
 	faultDesc := "none"
 	fusedOnly := false // the fault only removed a statement separator: brace structure and token order are intact
 	if ch.Bool(2, 5) {
@@ -1122,6 +1135,22 @@ func (e *Engine) Run(prop string, ch *kernel.Chooser, st *kernel.Stats) kernel.R
 					}
 					continue
 				}
+				if kk.kind == 'S' && len(rec.reentered) > 0 {
+					// a step requested through ParseStatement() shows up as a second, nested group at the same token
+					var flat []int
+					dups := 0
+					for i, o := range ords {
+						if i > 0 && o == ords[i-1] {
+							dups++
+							continue
+						}
+						flat = append(flat, o)
+					}
+					if dups != len(rec.reentered) {
+						add("C04", "steps", "steps|statement-via-ParseStatement", fmt.Sprintf("the innermost statement interceptor asked for %d steps through the public ParseStatement(), but the interceptor chain ran for %d of them", len(rec.reentered), dups))
+					}
+					ords = flat
+				}
 				// adding interceptors neither adds nor removes steps
 				if !equalInts(ords, kk.ref) {
 					add("C04", "steps", "steps|"+kk.name, fmt.Sprintf("%s steps (current-token ordinals) with %d interceptors: %v; with one: %v", kk.name, kk.k, ords, kk.ref))
@@ -1370,7 +1399,7 @@ func init() {
 			"sampling over programs, installations and action schedules; not exhaustive",
 		},
 		RequiredProbes: map[string][]string{
-			"C04": {"probe.reentrant_invocations", "probe.reentrant_at_depth_ge3", "probe.reentrant_party_before_passthrough_party", "probe.installed_via_plugin", "probe.malformed_with_errors_under_many_interceptors", "probe.eight_of_each_kind", "probe.builder_reused_for_another_parser", "probe.party_installed_between_two_builds", "probe.nested_parser_run_inside_interceptor", "probe.reentrant_via_specific_public_parse_function", "probe.plugin_uses_captured_builder", "probe.plugin_installs_nested_plugin", "fault.odd_prefix"},
+			"C04": {"probe.reentrant_invocations", "probe.reentrant_at_depth_ge3", "probe.reentrant_party_before_passthrough_party", "probe.installed_via_plugin", "probe.malformed_with_errors_under_many_interceptors", "probe.eight_of_each_kind", "probe.builder_reused_for_another_parser", "probe.party_installed_between_two_builds", "probe.nested_parser_run_inside_interceptor", "probe.reentrant_via_specific_public_parse_function", "probe.plugin_uses_captured_builder", "probe.plugin_installs_nested_plugin", "fault.odd_prefix", "probe.statement_step_requested_through_public_ParseStatement"},
 			"C16": {"probe.depth_ge5", "probe.function_body_direct", "probe.funcexpr_in_call_argument", "probe.funcexpr_in_object_value", "probe.funcexpr_in_condition", "probe.final_state_checked_on_erroring_input", "probe.nested_parser_run_inside_interceptor", "probe.builder_reused_for_another_parser", "probe.bailout_recovered_by_outer_interceptor", "probe.bailout_thrown_inside_function_body", "probe.reentrant_via_ParseFunctionExpression", "probe.context_stack_depth_ge40", "probe.public_ParseStatement_inside_function_body", "probe.nested_parser_built_from_the_same_builder"},
 		},
 	})
